@@ -291,6 +291,11 @@ def h(backend: _impl.Backend = _impl.Backend.DEFAULT, opts: "_impl.Backend.Optio
     "names that resolve to hidden and to visible objects"
 async def co(a, *, b: List[int] = [1]) -> 'Shown':
     "doc"
+@overload
+def only(a: int) -> int: ...
+@overload
+def only(a: str, /, *rest: bytes) -> str:
+    "declared by overloads alone (a protocol, a stub)"
 class K:
     "doc"
     @overload
@@ -304,6 +309,10 @@ class K:
     @classmethod
     def c(cls, *args: int, **kw: t.Dict[str, int]) -> 'K': "doc"
     def plain(self): "doc"
+    @overload
+    def proto(self, a: int) -> int: ...
+    @overload
+    def proto(self, a: str) -> str: ...
 '''
 PAGE_IMPL = 'class Backend:\n    "doc"\n    DEFAULT = 1\n    class Options:\n        "doc"\n'
 
@@ -351,7 +360,9 @@ def _check_pages(case):
                 continue
             shown = [_html.unescape(re.sub(r'<[^>]+>', '', x)) for x in
                      re.findall(r'<span class="py-defname">[^<]*</span><span class="function-signature">(.*?)</span>:', m.group(1), re.S)]
-            want = defs[:-1] if len(defs) > 1 else defs          # an overloaded function shows its overloads, each with its own signature
+            # an overloaded function shows its overloads, each with its own signature (also when there is no implementation at all)
+            is_ov = lambda fd_: any(ast.unparse(x).split('.')[-1] == 'overload' for x in fd_.decorator_list)      # noqa
+            want = [fd_ for fd_ in defs if is_ov(fd_)] or defs[-1:]
             if len(shown) != len(want):
                 fails.append({'observed': f'{qual}: {len(shown)} signature(s) on the page ({shown}), {len(want)} expected', 'required': 'overloads each show their own signature',
                               'class': 'page-count'})
